@@ -14,7 +14,7 @@ from .values import *
 from .exec import Unsupported, feasible
 from . import theory as TH
 
-KIND_ORDER = {'b': 0, 'i': 1, 'f': 2, 'c': 3, 'O': 4}
+KIND_ORDER = {'b': 0, 'u': 1, 'i': 1, 'f': 2, 'c': 3, 'O': 4}
 FRESH = frozenset()
 
 
